@@ -116,3 +116,64 @@ theorem newMax_spec (c q : Nat) (hc : c < two64) (hq : q < two64) :
     split <;> omega
 
 end Juno.C11.Gate
+
+namespace Juno.C11
+open Gate
+
+/-- A request that finds a free slot and room (whatever else is in flight: the state is any state with the gate's
+invariant) and leaves again restores the gate exactly: `Acquire; Release` is the identity on the counters. -/
+theorem acquire_release_restores (s : St) (h : s.Inv) (hfree : s.sem < s.maxConcurrent)
+    (hroom : s.active < s.maxRequests) :
+    s.run [.acquire false, .release] = s ∧ (s.step (.acquire false)).2 = .admitted := by
+  obtain ⟨h1, h2, h3, h4⟩ := h
+  have hw : s.waiting = 0 := by
+    rcases Nat.eq_zero_or_pos s.waiting with h0 | hp
+    · exact h0
+    · have := h4 hp; omega
+  have hnf : ¬ (s.active + 1 > s.maxRequests) := by omega
+  refine ⟨?_, ?_⟩
+  · cases s with
+    | mk mc mr a se rj w =>
+      simp only at hfree hroom hw hnf h2
+      subst hw
+      simp [St.run, St.step, hnf, hfree]
+  · simp [St.step, hnf, hfree]
+
+theorem postGateOps_restores (s : St) (h : s.Inv) (hfree : s.sem < s.maxConcurrent)
+    (hroom : s.active < s.maxRequests) (live : Bool) (e : PostExit) : s.run (postGateOps live e) = s := by
+  cases live
+  · simp [postGateOps, St.run, St.step]
+  · simpa [postGateOps] using (acquire_release_restores s h hfree hroom).1
+
+theorem posts_flatMap_restores (s : St) (h : s.Inv) (hfree : s.sem < s.maxConcurrent)
+    (hroom : s.active < s.maxRequests) (xs : List (Bool × PostExit)) :
+    s.run (xs.flatMap (fun x => postGateOps x.1 x.2)) = s := by
+  induction xs with
+  | nil => rfl
+  | cons x r ih =>
+    have hx := postGateOps_restores s h hfree hroom x.1 x.2
+    simp only [List.flatMap_cons, St.run, List.foldl_append] at hx ⊢
+    rw [hx]
+    exact ih
+
+/-- the observable trace of a sequence of POSTs that are alone at the gate: every live one is admitted, every
+dead one gets its `ctx.Err()`, and the counters after each are the counters before the first -/
+theorem posts_trace (s : St) (h : s.Inv) (hfree : s.sem < s.maxConcurrent)
+    (hroom : s.active < s.maxRequests) (xs : List (Bool × PostExit)) :
+    s.posts xs = xs.map (fun x => (if x.1 then Outcome.admitted else Outcome.ctxErr, s.sem, s.queued, s.rejected)) := by
+  induction xs with
+  | nil => rfl
+  | cons x r ih =>
+    obtain ⟨live, e⟩ := x
+    have hx := postGateOps_restores s h hfree hroom live e
+    simp only [St.posts, hx, ih, List.map_cons, List.cons.injEq, and_true, Prod.mk.injEq]
+    cases live
+    · simp [postGateOps, St.step]
+    · simpa [postGateOps] using (acquire_release_restores s h hfree hroom).2
+
+theorem newMax_pos (c q : Nat) (hc : 1 ≤ c) (hc' : c < two64) (hq : q < two64) : 1 ≤ newMax c q := by
+  rw [newMax_spec c q hc' hq]
+  simp only [two64]
+  omega
+
+end Juno.C11
